@@ -2,11 +2,13 @@ import Driver.Util
 import Driver.Bulk
 import Driver.Numscript
 import Driver.Router
+import Driver.Lock
 /-! registry of the areas the driver serves -/
 namespace Driver
 def areas : List (String × Handler) := [
   ("bulk", BulkD.handle),
   ("numscript", NumscriptD.handle),
-  ("router", RouterD.handle)
+  ("router", RouterD.handle),
+  ("lock", LockD.handle)
 ]
 end Driver
